@@ -825,10 +825,10 @@ func checkIRE(r *Report, a *Analysis, sc *Scope, rule string) {
 				case isNilConst(ev):
 					// success: assertion provably non-nil
 					under := fc.Cond(retBlock)
-				if alt.from != nil {
-					under = a.B.And(under, fc.edgeCond(retBlock, alt.from))
-				}
-				if nonNilAssertionUnder(fc, under, av, inFamily, 0) {
+					if alt.from != nil {
+						under = a.B.And(under, fc.edgeCond(retBlock, alt.from))
+					}
+					if nonNilAssertionUnder(fc, under, av, inFamily, 0) {
 						r.OK(rule, cons, pos, "success return with a provably non-nil assertion")
 					} else {
 						r.Bad(rule, cons, pos, "nil error returned with an assertion that is not provably non-nil")
@@ -983,58 +983,6 @@ func nonNilAssertionUnder(fc *FuncCtx, cond *bddNode, av ssa.Value, fam map[*ssa
 		return true
 	}
 	return fc.NonNil(av) == B.True
-}
-
-// siblingNilErrorPhi: an error-typed phi of the same block as x whose being nil is implied at b.
-func siblingNilErrorPhi(fc *FuncCtx, b *ssa.BasicBlock, x *ssa.Phi) *ssa.Phi {
-	B := fc.A.B
-	for _, in := range x.Block().Instrs {
-		ph, ok := in.(*ssa.Phi)
-		if !ok {
-			break
-		}
-		if ph == x || types.TypeString(ph.Type(), nil) != "error" {
-			continue
-		}
-		name := "isnil(" + fc.AP(ph) + ")"
-		if B.HasVar(name) && fc.Implied(b, B.Var(name)) {
-			return ph
-		}
-	}
-	return nil
-}
-
-// provablyNonNilError: the error value on this edge cannot be nil: a freshly made error, a wrapped concrete value, or a
-// variable tested non-nil on the way.
-func provablyNonNilError(fc *FuncCtx, b *ssa.BasicBlock, v ssa.Value) bool {
-	B := fc.A.B
-	switch x := v.(type) {
-	case *ssa.MakeInterface:
-		return true
-	case *ssa.Call:
-		if sc := x.Call.StaticCallee(); sc != nil && (sc.String() == "fmt.Errorf" || sc.String() == "errors.New") {
-			return true
-		}
-	case *ssa.Const:
-		return false
-	}
-	name := "isnil(" + fc.AP(v) + ")"
-	return B.HasVar(name) && fc.Implied(b, B.Not(B.Var(name)))
-}
-
-// samePairOfFamilyCall: av and ev are the two results of one call of a function of the family.
-func samePairOfFamilyCall(av, ev ssa.Value, fam map[*ssa.Function]bool) bool {
-	xa, ok1 := av.(*ssa.Extract)
-	xe, ok2 := ev.(*ssa.Extract)
-	if !ok1 || !ok2 || xa.Tuple != xe.Tuple || xa.Index != 0 || xe.Index != 1 {
-		return false
-	}
-	c, ok := xa.Tuple.(*ssa.Call)
-	if !ok {
-		return false
-	}
-	sc := c.Call.StaticCallee()
-	return sc != nil && fam[sc]
 }
 
 func isIREValue(fc *FuncCtx, b *ssa.BasicBlock, ev ssa.Value, ire *types.Named, fam map[*ssa.Function]bool) bool {
